@@ -6,6 +6,7 @@
    outcome = VRes of the bytes written to stdout *)
 From Coq Require Import List NArith Bool String.
 From NV Require Import Lib.Val Lib.Res Lib.Wire Shell.Model.
+From NV Require Shell.Paths.
 Import ListNotations.
 Open Scope N_scope.
 
@@ -89,4 +90,10 @@ Definition dispatch (cmd : string) (a : val) : val :=
   if String.eqb cmd "run" then
     let '(os, w) := run_all (getL (arg 1 a)) (dec_world (arg 0 a)) in
     VL [VL os; enc_world w]
+  else if String.eqb cmd "parse_words" then
+    (* [word ...] -> per word () | (image, () | (partition), path) : sh._image_re *)
+    VL (map (fun w => match Shell.Paths.parse_image_word (getS w) with
+                      | None => VL []
+                      | Some (img, pt, p) => VL [VS img; match pt with None => VL [] | Some n => VL [VN n] end; VS p]
+                      end) (getL a))
   else VErr "unknown command".
